@@ -216,6 +216,10 @@ func solveOne(outDir, bg string, o *Obligation, tier string, budget, seed int) *
 			plan = append(plan, attempt{sp, budget})
 		}
 	}
+	if o.Class == "cover" {
+		// vacuity probes only look for a quick `unsat`; anything else means "not shown contradictory"
+		plan = []attempt{{solvers[0], 2}, {solvers[1], 2}}
+	}
 	order := solvers
 	var lastOut string
 	for _, at := range plan {
